@@ -6,7 +6,9 @@ RULE = ("the whole Schnorr proof space (public, commitment, challenge, response)
         "per backend and label; a CP slice of the 11^6 space) decided by the implementation and by the Gallina verifier that "
         "hashes the complete transcript itself; adversarial families at 16/62/2048 bits: single-field mutations of honest "
         "proofs (each element/exponent replaced by neighbour, identity, generator), simulated transcripts with chosen "
-        "challenge, one-equation CP proofs, statement/label/base swaps, hash-consistent proofs of false statements made by "
+        "challenge, one-equation CP proofs, statement/base swaps, label variants (whitespace / NUL appended or prepended, "
+        "trimmed, truncated, lossy UTF-8, case-folded, SHA-512/SHA-256 digests, doubled) of empty / ASCII / padded / non-UTF-8 / "
+        "65- and 140-byte labels, hash-consistent proofs of false statements made by "
         "the stock prover (publics perturbed so that weighted products of the two CP equations still balance, or one "
         "public alone); accepted mutants are failing inputs at >=62 bits")
 
@@ -44,7 +46,7 @@ def run(env):
             ctx = "%s:%s" % (fl, pstr)
             P_, q_, g_ = pq(ctx)
             for _ in range(n):
-                x = r.randrange(q_); lab = hexb(r.randbytes(r.choice([0, 3, 50])))
+                x = r.randrange(q_); lab = label_pool(r, len(st1) // 3) if pstr != "2048" else hexb(r.randbytes(r.choice([0, 3, 50])))
                 g2 = rnd_member(r, ctx)
                 st1.append({"ctx": ctx, "op": "schnorr_prove", "args": [str(x), str(pow(g_, x, P_)), None, lab, script(r, 1024)], "tag": "honest"})
                 st1.append({"ctx": ctx, "op": "cp_prove", "args": [str(x), str(pow(g_, x, P_)), str(pow(g2, x, P_)), None, str(g2), lab, script(r, 1024)], "tag": "honest"})
@@ -76,7 +78,8 @@ def run(env):
             for v in mut_elems(ctx, a[1]):
                 if v != a[1]: add("schnorr_verify", [v, a[2], pf, a[3]], "mut-public")
             add("schnorr_verify", [a[1], str(pow(g_, 2, P_)), pf, a[3]], "mut-base")
-            add("schnorr_verify", [a[1], a[2], pf, a[3] + "00"], "mut-label")
+            for lv in (label_variants(a[3]) if not ctx.endswith(":2048") else [a[3] + "00"]):
+                add("schnorr_verify", [a[1], a[2], pf, lv], "mut-label")
             # simulated transcript with freely chosen challenge: t = g^s * y^-c
             cch = r.randrange(q_); s = r.randrange(q_)
             t = (pow(g_, s, P_) * pow(pow(int(a[1]), cch, P_), -1, P_)) % P_
@@ -93,7 +96,8 @@ def run(env):
                     if v != a[k]:
                         aa = list(a); aa[k] = v
                         add("cp_verify", [aa[1], aa[2], aa[3], aa[4], pf, aa[5]], "mut-statement")
-            add("cp_verify", [a[1], a[2], a[3], a[4], pf, a[5] + "ff"], "mut-label")
+            for lv in (label_variants(a[5]) if not ctx.endswith(":2048") else [a[5] + "ff"]):
+                add("cp_verify", [a[1], a[2], a[3], a[4], pf, lv], "mut-label")
             # false statement, only equation 1 holds: public2 replaced by g2^(x+1)
             y2 = (int(a[2]) * int(a[4])) % P_
             add("cp_verify", [a[1], str(y2), a[3], a[4], pf, a[5]], "one-equation")
@@ -105,7 +109,8 @@ def run(env):
         elif c["op"] == "popk":
             add("popk_verify", [a[1], a[2], pf, a[3]], "honest", False)
             add("popk_verify", [str((int(a[1]) * g_) % P_), a[2], pf, a[3]], "mut-mhr")
-            add("popk_verify", [a[1], a[2], pf, a[3] + "01"], "mut-label")
+            for lv in (label_variants(a[3]) if not ctx.endswith(":2048") else [a[3] + "01"]):
+                add("popk_verify", [a[1], a[2], pf, lv], "mut-label")
     # hash-consistent proofs of FALSE statements made by the stock prover (it hashes whatever statement it is given):
     # only the verification equations can reject them. Publics perturbed so that a weighted product
     # lhs1^alpha * lhs2^beta of the two CP equations still balances (catches "folded" / single-equation verifiers),
